@@ -182,6 +182,10 @@ def Ty.isAny : Ty → Bool
   | .any => true
   | _ => false
 
+def Ty.isUnit : Ty → Bool
+  | .nul .unit => true
+  | _ => false
+
 def Ty.name : Ty → Bytes
   | .any => [0x41, 0x6e, 0x79] | .undef => [0x55, 0x6e, 0x64, 0x65, 0x66] | .str => [0x53, 0x74, 0x72, 0x69, 0x6e, 0x67]
   | .int _ _ => [0x49, 0x6e, 0x74, 0x65, 0x67, 0x65, 0x72] | .flt _ _ => [0x46, 0x6c, 0x6f, 0x61, 0x74] | .enum _ _ => [0x45, 0x6e, 0x75, 0x6d]
@@ -267,9 +271,10 @@ def tyKey : Ty → Bytes
   | .enum ci vals => [1, 0x74] ++ ekStr (Ty.enum ci vals).name ++ unorderedParams (enumKeys ci vals)
   | .arr e lo hi =>
       -- `ArrayType.Parameters()`: the element type unless it is Any (kept for the size [0,0]: `Array[0, 0]` is the
-      -- type of the empty array, whose element type is Unit), the size unless it is Integer[0]
+      -- type of the empty array, whose element type is Unit — which is the one left out for that size), the size unless
+      -- it is Integer[0]
       [1, 0x74] ++ ekStr [0x41, 0x72, 0x72, 0x61, 0x79] ++
-        (if e.isAny ∧ ¬ (lo = 0 ∧ hi = 0) then [] else frame (tyKey e)) ++
+        (if (e.isAny ∧ ¬ (lo = 0 ∧ hi = 0)) ∨ (e.isUnit ∧ (lo = 0 ∧ hi = 0)) then [] else frame (tyKey e)) ++
         (if lo = 0 ∧ hi = maxInt then [] else sizeParams lo hi)
   | .var ts => [1, 0x74] ++ ekStr [0x56, 0x61, 0x72, 0x69, 0x61, 0x6e, 0x74] ++ unorderedParams (tyKeyL ts)
   | .tup ts size =>
